@@ -158,7 +158,7 @@ def run(ctx):
             raw, meta = pb.build(None if rng.random() < 0.3 else rng.choice([c.name for c in doc.containers]),
                                  length_delta=rng.choice([0, 0, 0, 1, -1, 2, -2, 9, -9, 3, -4]))
             out = ref.walk(doc, raw)
-            if out.status in ("dontcare", "unrecognized"):
+            if out.status in ("dontcare", "unrecognized") or harness.has_dontcare(out):
                 continue
             if out.status == "error" and out.consumption not in ("over", "negative"):
                 continue
